@@ -31,17 +31,16 @@ FIXED = [('short_int', 16, True), ('short_uint', 16, False),
 
 
 def shards(tier, seed):
-    out = []
+    out = [{'name': 'edges', 'what': 'edges',
+            'n_random': 4000 if tier == 'quick' else 200000},
+           {'name': 'toggle', 'what': 'toggle',
+            'seqs': 10 if tier == 'quick' else 300}]
     n = 14
     for i in range(n):
         out.append({'name': 'range%d' % i, 'what': 'range',
                     'lo': -70000 + i * 10001,
                     'hi': min(70000, -70000 + (i + 1) * 10001 - 1)})
-    out.append({'name': 'edges', 'what': 'edges',
-                'n_random': 4000 if tier == 'quick' else 200000})
-    out.append({'name': 'toggle', 'what': 'toggle',
-                'seqs': 10 if tier == 'quick' else 300})
-    return out
+    return common.with_configs(out, common.ALL_CONFIGS, take=2)
 
 
 def cases(shard, rnd):
@@ -58,7 +57,8 @@ def cases(shard, rnd):
                     -10**25])
         for legacy in (False, True):
             for n in sorted(pts):
-                for pos in ('top', 'array', 'table', 'nested3'):
+                for pos in ('top', 'array', 'table', 'nested3', 'array12',
+                            'deep-array12'):
                     yield {'t': 'int', 'n': n, 'legacy': legacy, 'pos': pos}
         for _ in range(shard['n_random']):
             k = rnd.random()
@@ -70,7 +70,8 @@ def cases(shard, rnd):
                 n = rnd.choice((1, -1)) * rnd.getrandbits(rnd.randint(60,
                                                                       80))
             yield {'t': 'int', 'n': n, 'legacy': rnd.random() < 0.5,
-                   'pos': rnd.choice(['top', 'array', 'table', 'nested3'])}
+                   'pos': rnd.choice(['top', 'array', 'table', 'nested3',
+                                      'array12', 'deep-array12'])}
         for name, bits, signed in FIXED:
             lo, hi = (-(1 << bits - 1), (1 << bits - 1) - 1) if signed \
                 else (0, (1 << bits) - 1)
@@ -145,6 +146,10 @@ def _check_top(n, legacy, rec, case, fn_name):
 def _wrap(n, pos):
     if pos == 'array':
         return [n]
+    if pos == 'array12':          # a long array of plain ints
+        return [1, 2, 3, 4, 5, 6, 7, 8, 9, n, 10, n]
+    if pos == 'deep-array12':
+        return {'t': [{'u': [1, 2, 3, 4, 5, 6, 7, 8, 9, 10, 11, n]}]}
     if pos == 'table':
         return {'k': n}
     return {'a': [{'b': [n, {'c': n}]}]}
@@ -179,7 +184,8 @@ def run_case(case, rec):
                     rec.count('ladder_ok')
                 return
             v = _wrap(n, pos)
-            fn = encode.field_array if pos == 'array' else encode.field_table
+            fn = encode.field_array if pos in ('array', 'array12') \
+                else encode.field_table
             e = call(fn, v)
             exp = expected(n, legacy)
             mode = 'legacy' if legacy else 'normal'
@@ -200,7 +206,7 @@ def run_case(case, rec):
                 return
             data = e.value
             try:
-                if pos == 'array':
+                if pos in ('array', 'array12'):
                     _, _, tr = refcodec.dec_array_bytes(data)
                 else:
                     _, _, tr = refcodec.dec_table_bytes(data)
@@ -208,9 +214,12 @@ def run_case(case, rec):
                 rec.violation('nested-not-grammar-valid', str(ex), case,
                               observed=common.hexs(data))
                 return
-            want = 2 if pos == 'nested3' else 1
-            ok = len(tr.int_tags) == want and all(
-                tg == exp[0] and val == n for tg, val in tr.int_tags)
+            mine = [(tg, val) for tg, val in tr.int_tags if val == n]
+            want = {'nested3': 2, 'array12': 2}.get(pos, 1)
+            others_ok = all(tg == expected(val, legacy)[0]
+                            for tg, val in tr.int_tags)
+            ok = len(mine) >= want and others_ok and all(
+                tg == exp[0] for tg, val in mine)
             if not ok:
                 rec.violation('ladder-tag-nested:%s' % mode,
                               'integer %d inside %s was emitted as %r; the '
@@ -296,7 +305,8 @@ def gates(m, tier):
     for mode in ('normal', 'legacy'):
         if mode not in m.sets.get('refused', ()):
             out.append('no out-of-range integer refused in %s mode' % mode)
-        for pos in ('array', 'table', 'nested3'):
+        for pos in ('array', 'table', 'nested3', 'array12',
+                    'deep-array12'):
             if '%s:%s' % (mode, pos) not in m.sets.get('positions', ()):
                 out.append('position %s never checked in %s mode'
                            % (pos, mode))
